@@ -10,6 +10,7 @@ replace github.com/willf/bitset v1.1.11 => github.com/bits-and-blooms/bitset v1.
 
 require (
 	github.com/MichaelMure/git-bug v0.0.0
+	github.com/ProtonMail/go-crypto v1.0.0
 	github.com/go-git/go-billy/v5 v5.5.0
 	github.com/go-git/go-git/v5 v5.12.0
 )
@@ -18,7 +19,6 @@ require (
 	dario.cat/mergo v1.0.0 // indirect
 	github.com/99designs/gqlgen v0.17.49 // indirect
 	github.com/99designs/keyring v1.2.2 // indirect
-	github.com/ProtonMail/go-crypto v1.0.0 // indirect
 	github.com/RoaringBitmap/roaring v1.9.4 // indirect
 	github.com/agnivade/levenshtein v1.1.1 // indirect
 	github.com/bits-and-blooms/bitset v1.13.0 // indirect
